@@ -8,6 +8,9 @@ CONSTANTS
   FixZeroHashState = TRUE
   FixLegacyZeroWriteLog = TRUE
   LubZeroShortcut = FALSE
+  NVar = 2
+  Scenarios = {"base"}
+  Leave = {}
   WithPreConfirmed = TRUE
 INIT Init
 NEXT Next
